@@ -38,7 +38,7 @@ def generate(rng, tier):
         for s_ in svcs:
             s_["other_ttl"] = rng.choice([60, 300])  # PTR/TXT below the 1125 s floor that caches apply to pointers
     dual = rng.random() < 0.3
-    layout = rng.choice(["default", "multi", "multi"]) if not dual else "multi"
+    layout = rng.choice(["default", "multi", "multi"]) if not dual else rng.choice(["multi", "multi", "default"])
     ops = [{"t": 0.0, "op": "host", "h": "R", "ip": "10.0.0.1", "layout": layout, "ip6": "fe80::1" if dual else None},
            {"t": 0.0, "op": "peer", "p": "Q1", "ip": "10.0.0.9", "ports": [5353, 5354, 40001]},
            {"t": 0.0, "op": "peer", "p": "Q2", "ip": "10.0.0.10", "ports": [5353, 6000]},
@@ -120,6 +120,9 @@ def execute(scenario, seed, overrides=None):
              "unicast_dst_queries": 0, "mcast_responses_checked": 0, "v6_queries": 0}
     try:
         drv = Driver(w, scenario)
+        host_op = next((o for o in scenario["ops"] if o["op"] == "host" and o.get("h") == "R"), {})
+        # InterfaceChoice.Default with IPVersion.All: one AF_INET6 socket, V6ONLY off, member of both groups
+        dual_default = host_op.get("layout", "default") == "default" and bool(host_op.get("ip6"))
         reg = ModelRegistry()
         hm = {}
         expect = []
@@ -207,7 +210,7 @@ def execute(scenario, seed, overrides=None):
             stats["probes"] += int(probe)
             stats["v6_queries"] += int(":" in src[0])
             stats["unicast_dst_queries"] += int(not rsock.joined or rsock.bind_ip != "")
-            expect.append({"t": t, "src": src, "sock": rsock.label, "U": U, "M": M, "N": N, "legacy": legacy,
+            expect.append({"t": t, "src": src, "sock": rsock.label, "U": U, "M": M, "N": N, "legacy": legacy, "dd": dual_default,
                            "probe": probe, "id": msg.id, "q": msg.questions, "opt_nsec": True, "alt": alt,
                            "causes": sorted(causes)})
 
@@ -398,6 +401,15 @@ def _judge(w, expect, ex, by_t, stats, out, alt):
         out.add("C11.multicast-now-missing", f"{qd}: expected immediate multicast of {miss_m[:3]}; multicast at that "
                 f"instant: {[tx.msg.answers[:3] for tx in mc]}", legacy=ex["legacy"], probe=ex["probe"])
         pass
+    # a multicast reply is owed to the querier: it has to go to the group of the querier's address family (a host that
+    # asked over IPv4 does not hear ff02::fb)
+    fam_group = wire.MCAST6 if ":" in ex["src"][0] else wire.MCAST4
+    got_fam = {_key(r) for tx in mc if tx.dst[0] == fam_group for r in tx.msg.answers}
+    wrong_fam = [r for k, r in wantM.items() if k in got_m and k not in got_fam]
+    if wrong_fam:
+        out.add("C11.multicast-not-on-queriers-family", f"{qd}: {wrong_fam[:2]} multicast only to "
+                f"{sorted({tx.dst[0] for tx in mc})}, the querier asked over {'IPv6' if ':' in ex['src'][0] else 'IPv4'}",
+                single_dual_stack_socket=bool(ex.get("dd")), legacy=ex["legacy"], probe=ex["probe"])
     if M and not ex["legacy"] and any(q.qu for q in ex["q"]):
         stats["qu_multicast_instead"] += int(count)
     if N:
